@@ -23,6 +23,8 @@ type Suite struct {
 	Canon  func(string) string
 	Gen    func(r *Rng, i int, tier string) []Op
 	Cases  func(tier string) int
+	// Classify decides whether a divergence is spec-level; nil = the op's S flag.
+	Classify Classifier
 	// Custom suites (concurrency, commands at the wall clock, ...) run themselves.
 	Custom func(c *Ctx) []Finding
 }
@@ -144,12 +146,12 @@ func runSuite(c *Ctx, s Suite) []Finding {
 	var findings []Finding
 	var fmu sync.Mutex
 	addFinding := func(ops []Op, dv *Divergence) {
-		sops, sdv := shrink(s.MkExec, ops, s.Canon, dv.Op.S)
+		sops, sdv := shrink(s.MkExec, ops, s.Canon, s.Classify, dv.S)
 		if sdv == nil {
 			sops, sdv = ops[:dv.Index+1], dv
 		}
 		st := "M"
-		if sdv.Op.S {
+		if sdv.S {
 			st = "S"
 		}
 		fmu.Lock()
@@ -208,7 +210,7 @@ func runSuite(c *Ctx, s Suite) []Finding {
 					}
 					local.Samples = append(local.Samples, s.Name+": "+strings.Join(opsLines(ops[:k]), " | "))
 				}
-				if dv := runCase(ex, d, ops, local, s.Canon); dv != nil {
+				if dv := runCase(ex, d, ops, local, s.Canon, s.Classify); dv != nil {
 					addFinding(ops, dv)
 					// a diverged executor may hold state: start afresh
 					ex.Cleanup()
